@@ -3,69 +3,81 @@ From GV.Model Require Import SEval.
 From GV.Proofs Require Import StatusProps EvalLaws.
 From Coq Require Import Permutation.
 
-(* a clause evaluator is state-transparent on xs when each x has one status g x in every
-   state and its evaluation gives the state back unchanged (records may be emitted) *)
+(* a clause evaluator is state-transparent on xs in the state s when each x evaluates in s to a status
+   g x and gives s back unchanged (records may be emitted) *)
+Definition transparent_at {T} (s : state) (f : T -> M status) (g : T -> status) (xs : list T) : Prop :=
+  forall x, In x xs -> exists recs, f x s = Done (g x, recs, s).
+
+(* ... in every state *)
 Definition transparent {T} (f : T -> M status) (g : T -> status) (xs : list T) : Prop :=
   forall x, In x xs -> forall s, exists recs, f x s = Done (g x, recs, s).
+
+Lemma transparent_everywhere {T} (f : T -> M status) g xs : transparent f g xs -> forall s, transparent_at s f g xs.
+Proof. intros H s x Hx. apply H. exact Hx. Qed.
 
 Lemma disjunction_status_cons_skip l : disjunction_status (SKIP :: l) = disjunction_status l.
 Proof. reflexivity. Qed.
 
-Lemma disj_body_transparent {T} (f : T -> M status) g l :
-  transparent f g l ->
-  forall failed s, exists recs,
+Lemma disj_body_transparent_at {T} (f : T -> M status) g l s :
+  transparent_at s f g l ->
+  forall failed, exists recs,
     disj_body f l failed s
     = Done (disjunction_status ((if failed then [FAIL] else []) ++ map g l), recs, s).
 Proof.
-  induction l as [|x l IH]; intros Ht failed s; cbn [disj_body map].
+  induction l as [|x l IH]; intros Ht failed; cbn [disj_body map].
   - exists []. rewrite app_nil_r. destruct failed; reflexivity.
-  - destruct (Ht x (or_introl eq_refl) s) as [r1 Hx].
-    assert (Ht' : transparent f g l) by (intros y Hy; apply Ht; right; exact Hy).
+  - destruct (Ht x (or_introl eq_refl)) as [r1 Hx].
+    assert (Ht' : transparent_at s f g l) by (intros y Hy; apply Ht; right; exact Hy).
     unfold bind. rewrite Hx. destruct (g x) eqn:Eg.
     + exists (r1 ++ []). cbn. f_equal. f_equal. f_equal.
       unfold disjunction_status. rewrite existsb_app. cbn. rewrite Bool.orb_true_r. reflexivity.
-    + destruct (IH Ht' true s) as [r2 H2]. rewrite H2. exists (r1 ++ r2). f_equal. f_equal. f_equal.
+    + destruct (IH Ht' true) as [r2 H2]. rewrite H2. exists (r1 ++ r2). f_equal. f_equal. f_equal.
       unfold disjunction_status. rewrite !existsb_app. cbn.
       destruct failed; cbn; rewrite ?Bool.orb_false_r; reflexivity.
-    + destruct (IH Ht' failed s) as [r2 H2]. rewrite H2. exists (r1 ++ r2). f_equal. f_equal. f_equal.
+    + destruct (IH Ht' failed) as [r2 H2]. rewrite H2. exists (r1 ++ r2). f_equal. f_equal. f_equal.
       unfold disjunction_status. rewrite !existsb_app. cbn. reflexivity.
 Qed.
 
-Lemma line_body_transparent {T} (f : T -> M status) g line :
-  transparent f g line ->
-  forall s, exists recs, line_body f line s = Done (disjunction_status (map g line), recs, s).
+Lemma line_body_transparent_at {T} (f : T -> M status) g line s :
+  transparent_at s f g line ->
+  exists recs, line_body f line s = Done (disjunction_status (map g line), recs, s).
 Proof.
-  intros Ht s. unfold line_body.
-  destruct (disj_body_transparent f g line Ht false s) as [recs H]. cbn [app] in H.
+  intros Ht. unfold line_body.
+  destruct (disj_body_transparent_at f g line s Ht false) as [recs H]. cbn [app] in H.
   destruct line as [|x [|y l]]; try (exists recs; exact H).
   unfold node. rewrite H. eexists. reflexivity.
 Qed.
 
-Lemma mapM_transparent {A} (f : A -> M status) (g : A -> status) l :
-  (forall x, In x l -> forall s, exists recs, f x s = Done (g x, recs, s)) ->
-  forall s, exists recs, mapM f l s = Done (map g l, recs, s).
+Lemma mapM_transparent_at {A} (f : A -> M status) (g : A -> status) l s :
+  (forall x, In x l -> exists recs, f x s = Done (g x, recs, s)) ->
+  exists recs, mapM f l s = Done (map g l, recs, s).
 Proof.
-  induction l as [|x l IH]; intros H s; cbn [mapM map].
+  induction l as [|x l IH]; intros H; cbn [mapM map].
   - exists []. reflexivity.
-  - destruct (H x (or_introl eq_refl) s) as [r1 Hx].
-    destruct (IH (fun y Hy => H y (or_intror Hy)) s) as [r2 Hl].
+  - destruct (H x (or_introl eq_refl)) as [r1 Hx].
+    destruct (IH (fun y Hy => H y (or_intror Hy))) as [r2 Hl].
     unfold bind. rewrite Hx, Hl. cbn. eexists. reflexivity.
 Qed.
 
-(* a body over state-transparent clauses computes the CNF of the clause statuses *)
-Theorem cnf_body_transparent {T} (f : T -> M status) g cnf :
-  transparent f g (List.concat cnf) ->
-  forall s, exists recs, cnf_body f cnf s = Done (conj_status (map (map g) cnf), recs, s).
+(* a body over clauses that are state-transparent in s computes the CNF of the clause statuses *)
+Theorem cnf_body_transparent_at {T} (f : T -> M status) g cnf s :
+  transparent_at s f g (List.concat cnf) ->
+  exists recs, cnf_body f cnf s = Done (conj_status (map (map g) cnf), recs, s).
 Proof.
-  intros Ht s. unfold cnf_body.
-  assert (Hl : forall line, In line cnf -> forall s, exists recs,
+  intros Ht. unfold cnf_body.
+  assert (Hl : forall line, In line cnf -> exists recs,
              line_body f line s = Done (disjunction_status (map g line), recs, s)).
-  { intros line Hin. apply line_body_transparent. intros x Hx. apply Ht.
+  { intros line Hin. apply line_body_transparent_at. intros x Hx. apply Ht.
     apply in_concat. exists line. split; assumption. }
-  destruct (mapM_transparent (line_body f) (fun line => disjunction_status (map g line)) cnf Hl s) as [recs Hm].
+  destruct (mapM_transparent_at (line_body f) (fun line => disjunction_status (map g line)) cnf s Hl) as [recs Hm].
   unfold bind. rewrite Hm. cbn. eexists. f_equal. f_equal. f_equal.
   unfold conj_status. rewrite map_map. reflexivity.
 Qed.
+
+Theorem cnf_body_transparent {T} (f : T -> M status) g cnf :
+  transparent f g (List.concat cnf) ->
+  forall s, exists recs, cnf_body f cnf s = Done (conj_status (map (map g) cnf), recs, s).
+Proof. intros Ht s. apply cnf_body_transparent_at. apply transparent_everywhere. exact Ht. Qed.
 
 Definition status_of {A} (o : outcome (A * list record * state)) : outcome A :=
   match o with
@@ -78,49 +90,64 @@ Lemma transparent_perm {T} (f : T -> M status) g l l' :
 Proof. intros Hp Ht x Hx. apply Ht. eapply Permutation_in; [apply Permutation_sym; exact Hp|exact Hx]. Qed.
 
 (* permuting the lines of a body does not change its status *)
-Theorem perm_lines {T} (f : T -> M status) g cnf cnf' s :
-  Permutation cnf cnf' -> transparent f g (List.concat cnf) ->
+Theorem perm_lines_at {T} (f : T -> M status) g cnf cnf' s :
+  Permutation cnf cnf' -> transparent_at s f g (List.concat cnf) ->
   status_of (cnf_body f cnf s) = status_of (cnf_body f cnf' s).
 Proof.
   intros Hp Ht.
-  assert (Ht' : transparent f g (List.concat cnf')).
+  assert (Ht' : transparent_at s f g (List.concat cnf')).
   { intros x Hx. apply Ht. apply in_concat in Hx. destruct Hx as (l & Hl & Hx).
     apply in_concat. exists l. split; [|exact Hx]. eapply Permutation_in; [apply Permutation_sym; exact Hp|exact Hl]. }
-  destruct (cnf_body_transparent f g cnf Ht s) as [r1 H1].
-  destruct (cnf_body_transparent f g cnf' Ht' s) as [r2 H2].
+  destruct (cnf_body_transparent_at f g cnf s Ht) as [r1 H1].
+  destruct (cnf_body_transparent_at f g cnf' s Ht') as [r2 H2].
   rewrite H1, H2. cbn. f_equal. apply conj_status_perm_lines. apply Permutation_map. exact Hp.
 Qed.
 
+Theorem perm_lines {T} (f : T -> M status) g cnf cnf' s :
+  Permutation cnf cnf' -> transparent f g (List.concat cnf) ->
+  status_of (cnf_body f cnf s) = status_of (cnf_body f cnf' s).
+Proof. intros Hp Ht. eapply perm_lines_at; [exact Hp|apply transparent_everywhere; exact Ht]. Qed.
+
 (* permuting the alternatives of an `or` line does not change the body's status *)
-Theorem perm_alternatives {T} (f : T -> M status) g line line' rest s :
-  Permutation line line' -> transparent f g (List.concat (line :: rest)) ->
+Theorem perm_alternatives_at {T} (f : T -> M status) g line line' rest s :
+  Permutation line line' -> transparent_at s f g (List.concat (line :: rest)) ->
   status_of (cnf_body f (line :: rest) s) = status_of (cnf_body f (line' :: rest) s).
 Proof.
   intros Hp Ht.
-  assert (Ht' : transparent f g (List.concat (line' :: rest))).
+  assert (Ht' : transparent_at s f g (List.concat (line' :: rest))).
   { intros x Hx. apply Ht. cbn [List.concat] in *. apply in_app_or in Hx. apply in_or_app.
     destruct Hx as [Hx|Hx]; [left|right; exact Hx].
     eapply Permutation_in; [apply Permutation_sym; exact Hp|exact Hx]. }
-  destruct (cnf_body_transparent f g _ Ht s) as [r1 H1].
-  destruct (cnf_body_transparent f g _ Ht' s) as [r2 H2].
+  destruct (cnf_body_transparent_at f g _ s Ht) as [r1 H1].
+  destruct (cnf_body_transparent_at f g _ s Ht') as [r2 H2].
   rewrite H1, H2. cbn [status_of map]. f_equal.
   apply conj_status_perm_alternatives. apply Permutation_map. exact Hp.
 Qed.
 
+Theorem perm_alternatives {T} (f : T -> M status) g line line' rest s :
+  Permutation line line' -> transparent f g (List.concat (line :: rest)) ->
+  status_of (cnf_body f (line :: rest) s) = status_of (cnf_body f (line' :: rest) s).
+Proof. intros Hp Ht. eapply perm_alternatives_at; [exact Hp|apply transparent_everywhere; exact Ht]. Qed.
+
 (* repeating a line does not change the body's status *)
-Theorem dup_line {T} (f : T -> M status) g line rest s :
-  In line rest -> transparent f g (List.concat rest) ->
+Theorem dup_line_at {T} (f : T -> M status) g line rest s :
+  In line rest -> transparent_at s f g (List.concat rest) ->
   status_of (cnf_body f (line :: rest) s) = status_of (cnf_body f rest s).
 Proof.
   intros Hin Ht.
-  assert (Ht' : transparent f g (List.concat (line :: rest))).
+  assert (Ht' : transparent_at s f g (List.concat (line :: rest))).
   { intros x Hx. cbn [List.concat] in Hx. apply in_app_or in Hx. destruct Hx as [Hx|Hx]; [|apply Ht; exact Hx].
     apply Ht. apply in_concat. exists line. split; assumption. }
-  destruct (cnf_body_transparent f g _ Ht s) as [r1 H1].
-  destruct (cnf_body_transparent f g _ Ht' s) as [r2 H2].
+  destruct (cnf_body_transparent_at f g _ s Ht) as [r1 H1].
+  destruct (cnf_body_transparent_at f g _ s Ht') as [r2 H2].
   rewrite H1, H2. cbn [status_of map]. f_equal.
   apply conj_status_dup_line. apply in_map. exact Hin.
 Qed.
+
+Theorem dup_line {T} (f : T -> M status) g line rest s :
+  In line rest -> transparent f g (List.concat rest) ->
+  status_of (cnf_body f (line :: rest) s) = status_of (cnf_body f rest s).
+Proof. intros Hin Ht. eapply dup_line_at; [exact Hin|apply transparent_everywhere; exact Ht]. Qed.
 
 (* ---------- rules referenced by name: definition order of other rules is irrelevant ---------- *)
 
